@@ -47,8 +47,11 @@ type Prog struct {
 	named            []*types.Named
 	Unresolved       []string
 	addrTaken        map[*ssa.Function]bool
-	funcDecls        map[*types.Func]*ast.FuncDecl
-	declPkg          map[*types.Func]*packages.Package
+	// Overlay: the files of the rename-normalised view (nil when nothing was renamed); CanonNotes says what was renamed.
+	Overlay    map[string][]byte
+	CanonNotes []string
+	funcDecls  map[*types.Func]*ast.FuncDecl
+	declPkg    map[*types.Func]*packages.Package
 }
 
 // Load loads ./... of dir with the real build's flags.
@@ -79,6 +82,43 @@ func Load(dir, tags string) (*Prog, error) {
 	}
 	p := &Prog{Dir: dir, Tags: tags, ByPkg: map[string]*packages.Package{},
 		funcDecls: map[*types.Func]*ast.FuncDecl{}, declPkg: map[*types.Func]*packages.Package{}}
+	// rename normalisation (see canon.go): unexported identifiers that were renamed get their baseline names back
+	if os.Getenv("PV_NO_CANON") == "" {
+		var roots []*packages.Package
+		clean := true
+		for _, pk := range pkgs {
+			if strings.HasPrefix(pk.PkgPath, Mod) {
+				roots = append(roots, pk)
+				if len(pk.Errors) > 0 {
+					clean = false
+				}
+			}
+		}
+		if clean {
+			if ren, notes := detectRenames(roots); len(ren) > 0 {
+				ov, oerr := canonOverlay(roots, ren)
+				if oerr == nil && len(ov) > 0 {
+					cfg2 := *cfg
+					cfg2.Overlay = ov
+					if pkgs2, err2 := packages.Load(&cfg2, "./..."); err2 == nil {
+						ok2 := true
+						packages.Visit(pkgs2, nil, func(pk *packages.Package) {
+							if strings.HasPrefix(pk.PkgPath, Mod) && len(pk.Errors) > 0 {
+								ok2 = false
+							}
+						})
+						if ok2 {
+							pkgs = pkgs2
+							p.Overlay = ov
+							p.CanonNotes = notes
+						} else {
+							p.CanonNotes = append(notes, "the normalised view did not type-check; analysing the tree as it is")
+						}
+					}
+				}
+			}
+		}
+	}
 	var errs []string
 	packages.Visit(pkgs, nil, func(pk *packages.Package) {
 		p.ByPkg[pk.PkgPath] = pk
@@ -180,6 +220,14 @@ func (p *Prog) SSAPkg(rel string) *ssa.Package {
 // recv == "" selects a package-level function; otherwise the named type whose
 // method (value or pointer receiver) is wanted.
 func (p *Prog) Func(rel, recv, name string) *ssa.Function {
+	if f := p.funcExact(rel, recv, name); f != nil {
+		return f
+	}
+	return p.funcByRole(rel, recv, name)
+}
+
+// funcExact: the function or method with exactly that name.
+func (p *Prog) funcExact(rel, recv, name string) *ssa.Function {
 	pk := p.Pkg(rel)
 	if pk == nil {
 		return nil
